@@ -5,6 +5,7 @@
   hand-written case-insensitive `QualifierKey == QualifierKey` (`rustEqPurl`); `cmp` is the derived
   lexicographic `Ord` (`cmpPurl`); `Hash` is derived, i.e. a function of the value.
 -/
+import PurlModel.Lemmas.Utf8Order
 import PurlModel.Lemmas.RustOrd
 import PurlModel.Lemmas.FormatInj
 import PurlModel.Lemmas.TypedParse
@@ -74,6 +75,16 @@ theorem ordering_total_string : IsOrd (cmpPurl cmpStr) := isOrd_cmpPurl isOrd_cm
 theorem ordering_total_typed : IsOrd (cmpPurl cmpPkgType) := isOrd_cmpPurl isOrd_cmpPkgType
 
 theorem cmp_eq_iff_eq (a b : GPurl Str) : cmpPurl cmpStr a b = .eq ↔ a = b := ordering_total_string.eq_iff a b
+
+/-- `str::cmp` — what `Ord` of `String`, `SmartString` and `QualifierKey` runs, and what the derived `Ord` of the parts
+is built from — compares the UTF-8 BYTES; the model's `cmpStr` compares scalar values.  For all strings the two agree
+(UTF-8 is order-preserving), so the ordering theorems above are theorems about the order the compiled code computes. -/
+theorem str_cmp_is_code_point_order (a b : Str) : cmpBytes (utf8 a) (utf8 b) = cmpStr a b :=
+  cmpBytes_utf8 a b
+
+/-- e.g. U+00E9 (bytes C3 A9) sorts before U+4E2D (bytes E4 B8 AD) and after `z`, byte-wise and by scalar value alike -/
+example : cmpBytes (utf8 ['z']) (utf8 ['é']) = .lt ∧ cmpBytes (utf8 ['é']) (utf8 ['中']) = .lt ∧
+    cmpStr ['z'] ['é'] = .lt ∧ cmpStr ['é'] ['中'] = .lt := by decide
 
 /-- the derived `Hash` feeds the hasher with a function of the value: equal values, equal input -/
 def hashStream {τ : Type} (tyStream : τ → List Str) (p : GPurl τ) : List Str :=
